@@ -2,8 +2,8 @@
 policy model M-policy computed from the ROLES, not from paths."""
 import os
 
-CATS = ['app-misc', 'dev-lang', 'sys-apps', 'x11-wm', 'net-p2p', 'virtual']
-PKGS = ['foo', 'bar', 'baz-qux', 'libfoo', 'a']
+CATS = ['app-misc', 'dev-lang', 'sys-apps', 'x11-wm', 'net-p2p', 'virtual', 'dev', 'sys', 'app-misc-extra']   # incl. names that extend another as a string
+PKGS = ['foo', 'bar', 'baz-qux', 'libfoo', 'a', 'foo-utils', 'bar2', 'ab']
 TOP_IGNORED = ('distfiles', 'local', 'lost+found', 'packages')
 META_IGN = ('timestamp', 'timestamp.chk', 'timestamp.commit', 'timestamp.x')
 METASUB_IGN = ('timestamp.chk', 'timestamp.commit')
@@ -28,6 +28,10 @@ def gen_repo(rng, portable=False, cfg=None):
 
     ncat = rng.choice([0, 1, 1, 2, 3, 4]) if not cfg.get('min_cats') else rng.choice([1, 2, 3])
     cats = rng.sample(CATS, ncat)
+    if ncat >= 2 and rng.random() < 0.3:
+        # sibling categories where one name extends the other as a string
+        pair = rng.choice([('dev', 'dev-lang'), ('sys', 'sys-apps'), ('app-misc', 'app-misc-extra')])
+        cats = list(pair) + [c for c in cats if c not in pair][:ncat - 2]
     catlist = []
     for c in cats:
         npk = rng.choice([0, 1, 1, 2, 3, 4])
@@ -41,7 +45,11 @@ def gen_repo(rng, portable=False, cfg=None):
             roles['tags'][c + '/metadata.xml'] = 'DATA'
         if npk == 0:
             tree.append({'p': c, 'k': 'dir'})
-        for pk in rng.sample(PKGS, npk):
+        pks = rng.sample(PKGS, npk)
+        if npk >= 2 and rng.random() < 0.3:
+            pair = rng.choice([('foo', 'foo-utils'), ('bar', 'bar2'), ('a', 'ab')])
+            pks = list(pair) + [x for x in pks if x not in pair][:npk - 2]
+        for pk in pks:
             d = c + '/' + pk
             roles['manifest_dirs'].append(d)
             roles['package_dirs'].append(d)
